@@ -861,11 +861,15 @@ func raceStorm() int {
 				solo[i] = ops[o].F(inputs[i], bitsIn[i])
 			}
 		}
-		for wave := 0; wave < 2; wave++ {
+		for wave := 0; wave < 3; wave++ {
+			ng := 16
+			if wave == 2 {
+				ng = 40 // more distinct buffers in flight than any per-CPU table of the library can hold
+			}
 			var wg sync.WaitGroup
-			got := make([][]float64, 16)
-			which := make([]int, 16)
-			for g := 0; g < 16; g++ {
+			got := make([][]float64, ng)
+			which := make([]int, ng)
+			for g := 0; g < ng; g++ {
 				i := (g + wave) % len(inputs)
 				for solo[i] == nil {
 					i = (i + 1) % len(inputs)
@@ -873,7 +877,13 @@ func raceStorm() int {
 				g, i := g, i
 				which[g] = i
 				wg.Add(1)
-				go func() { defer wg.Done(); got[g] = ops[o].F(inputs[i], bitsIn[i]) }()
+				in, inBits := inputs[i], bitsIn[i]
+				if wave == 2 {
+					// every goroutine its own copy of the data: same contents, distinct buffers
+					in = append(make([]byte, 0, len(in)+spare), in...)
+					inBits = append(make([]bool, 0, len(inBits)+spare), inBits...)
+				}
+				go func() { defer wg.Done(); got[g] = ops[o].F(in, inBits) }()
 			}
 			wg.Wait()
 			for g := range got {
